@@ -16,6 +16,11 @@ impl EndpointHandler<u32> for H {
         self.log.lock().unwrap().push(self.id);
         let mut r = Response::new(Version::Http10, StatusCode::OK);
         r.set_body(Body::new(format!("handler-{}", self.id)));
+        if self.id % 2 == 1 {
+            // a handler that picks its own content type and server identity: the router must overwrite both
+            r.set_content_type(micro_http::MediaType::PlainText);
+            r.set_server("handler-set");
+        }
         r
     }
 }
@@ -110,7 +115,10 @@ pub fn table_case(rec: &mut Rec, server_id: &str, prefix: &str, regs: &[(u8, usi
                 None => invoked.is_empty() && resp.status() == StatusCode::NotFound,
             };
             let text = String::from_utf8_lossy(&out).to_string();
-            let stamped = text.contains(&format!("Server: {}\r\n", server_id)) && (resp.content_type() == micro_http::MediaType::ApplicationJson);
+            let stamped = text.contains(&format!("Server: {}\r\n", server_id))
+                && !text.contains("Server: handler-set\r\n")
+                && (resp.content_type() == micro_http::MediaType::ApplicationJson)
+                && (text.contains("Content-Type: application/json\r\n") || !text.contains("Content-Type:"));
             if !ok_invocation || !stamped {
                 rec.oracle_fail("C17", &format!("dispatch: invoked {:?}, expected {:?}, stamped={}", invoked, want, stamped), &l);
             }
